@@ -50,6 +50,14 @@ def toml_str(s, literal=False):
     return toml_basic(s)
 
 
+def toml_key(k):
+    """Quoted key; a literal (single-quoted) key when the name holds a backslash or double quote, because the
+    toml 0.10 parser used by bumpver does not unescape basic-string *keys*."""
+    if ("\\" in k or '"' in k) and "'" not in k and all(ord(ch) >= 0x20 for ch in k):
+        return "'" + k + "'"
+    return toml_basic(k)
+
+
 def is_toml(syntax):
     return syntax.endswith(".toml")
 
@@ -89,9 +97,9 @@ def render_config(cfg, syntax, style=None):
         lines.append("[%s]" % fsec)
         for key, pats in cfg.get("file_patterns", []):
             if len(pats) == 1 and style.get("toml_inline", True):
-                lines.append("%s = [%s]" % (toml_basic(key), toml_str(pats[0], style.get("toml_literal"))))
+                lines.append("%s = [%s]" % (toml_key(key), toml_str(pats[0], style.get("toml_literal"))))
             else:
-                lines.append("%s = [" % toml_basic(key))
+                lines.append("%s = [" % toml_key(key))
                 for p in pats:
                     lines.append("    %s," % toml_str(p, style.get("toml_literal")))
                 lines.append("]")
